@@ -309,16 +309,15 @@ PROPS = {
         tables=["parse"],
         determined=True,
         projection=lambda case, reply: reply if reply.startswith("E ") else "ok",
-        technique="Lean 4 theorems by functional induction over the parsing machine: every error offset is the UTF-8 length of an input prefix and Unexpected carries the character found there (None iff end of input); locality of every lexical function and of the machine gives: no continuation past the reported character is a JSON text; the other half of the viable-prefix clause is tested against an independent LL(1) recogniser",
-        level_text=("PARTIAL proof (one half of the maximality clause still open). Proved in Lean for all inputs (incl. failing streams) and all option records (C07_boundary_partial and corollaries): every offset in every error is p = utf8Len(pre) for a prefix pre of the input (a character boundary inside the input); "
-                    "Unexpected(p, c) carries exactly the character of the input at p and None exactly when p is the input length; InvalidUtf8 is reported at the end of the well-formed prefix (= the first ill-formed sequence) and only for ill-formed input; surrogate-error spans have both ends on boundaries, in order. "
-                    "UPPER BOUND of the viable prefix (C07_no_longer_prefix_viable): when strict parsing reports Unexpected(p, some a), the input up to and including a has NO continuation that is a JSON text, even with every \\uXXXX escape allowed (Viable = exists suffix in LDoc <true,true>) - so the longest viable prefix is at most p bytes; "
-                    "C07_error_is_local: the same error is reported whatever follows the offending character, under every option record. Proved through a locality lemma for every lexical function (what it does strictly inside a prefix does not depend on what follows: Lemmas/Local.lean, ~1800 lines), lifted to the machine (run_local_err), error monotonicity across option records (run_emono) and completeness of the parser for LDoc (C12). "
-                    "Not yet proved: the LOWER bound (the input before offset p IS viable - C07_viable_full) and that surrogate spans lie inside the escape(s). Both are tested on every rejected input of the C01 streams against an independent predictive (LL(1)) recogniser written from the grammar "
-                    "(bounded-exhaustive strings, every single-character edit/truncation of corpus documents, damaged generated documents) and a direct span-shape check. The MissingLowSurrogate overshoot found by this check was repaired (fix: commit)."),
+        technique="Lean 4 theorems by functional induction over the parsing machine: every error offset is the UTF-8 length of an input prefix and Unexpected carries the character found there (None iff end of input); locality of every lexical function and of the machine gives: no continuation past the reported character is a JSON text; completion of every partial token and a closing lemma for machine configurations give: the input before it has a continuation that is one (longest viable prefix, both halves)",
+        level_text=("The first clause is proved in full on the model: C07_longest_viable_prefix - when strict parsing reports Unexpected(p, c), the input splits as pre ++ rest with p = utf8Len pre, pre IS viable (some continuation of it is a JSON text of the grammar in which every \\uXXXX escape is allowed: Viable = exists suffix in LDoc <true,true>), and pre plus the next character is NOT viable (no continuation at all), so p is the length of the longest viable prefix (C07_viable_prefix_closed: viability is closed under taking prefixes). "
+                    "Upper bound (C07_no_longer_prefix_viable, C07_error_is_local): a locality lemma for every lexical function (what it does strictly inside a prefix does not depend on what follows: Lemmas/Local.lean), lifted to the machine (run_local_err), error monotonicity across option records (run_emono), completeness of the parser for LDoc (C12). "
+                    "Lower bound (C07_prefix_viable): every machine step that touches the reported offset - fails there or stops exactly there - can be completed (partial numbers through the automaton's suffix languages, literals, string elements incl. partial \\uXXXX and pending surrogates, keys and colons: Lemmas/TokComplete.lean, StepComplete.lean), from any well-formed configuration the run on `0` plus the closing brackets succeeds (run_close), and the steps strictly before the offset are replayed by locality (run_viable, by functional induction over all 25 cases of the machine). "
+                    "Also proved for all inputs (incl. failing streams) and all option records (C07_boundary_partial and corollaries): every offset in every error is a character boundary inside the input; Unexpected(p, c) carries exactly the character at p and None exactly when p is the input length; InvalidUtf8 is reported at the end of the well-formed prefix and only for ill-formed input; surrogate-error spans have both ends on boundaries, in order. "
+                    "Not proved: that surrogate spans lie INSIDE the escape(s) they blame - tested by a direct span-shape check on every rejected input (the MissingLowSurrogate overshoot found by it was repaired: fix: commit). The independent predictive (LL(1)) recogniser still runs on every rejected input as an oracle for the viable-prefix clause on the real code."),
         level_note="Trusted: Lean kernel; model validated by correspondence (full error projection); harness reference recogniser.",
         rule="request = text/bytes + options; error projection (variant, offsets, payload). Non-trivial = accepted inputs are trivial here: non-trivial counts distinct rejected... (harness counts accepted as non-trivial; see distribution.err_* for rejected kinds)",
-        strength="partial: boundary/character clause and the upper bound of the viable prefix proved (nothing past the reported character is viable); lower bound (the prefix before it is viable) tested against an independent recogniser",
+        strength="longest-viable-prefix clause, character clause, boundary clause and InvalidUtf8 clause proved on the model for all inputs; containment of surrogate spans in their escapes tested",
         trusted_base=COMMON_TRUST + ["harness reference recogniser"],
         assumptions=[],
     ),
